@@ -456,6 +456,30 @@ func (f *e1func) runInlined(st *fstate, c *ast.CallExpr, callee *FuncInfo) *inlR
 		closureW: map[types.Object][]types.Object{}, statusOf: map[string]int{}, errIdx: -1, parent: f, depth: f.depth + 1, callPos: c.Pos()}
 	g.prepare()
 	g.tb.sub = map[types.Object]*Term{}
+	// a generic helper: its type parameters stand for the type arguments of this call
+	{
+		var id *ast.Ident
+		fun := unparen(c.Fun)
+		if ix, ok := fun.(*ast.IndexExpr); ok {
+			fun = unparen(ix.X)
+		} else if ix, ok := fun.(*ast.IndexListExpr); ok {
+			fun = unparen(ix.X)
+		}
+		switch x := fun.(type) {
+		case *ast.Ident:
+			id = x
+		case *ast.SelectorExpr:
+			id = x.Sel
+		}
+		if id != nil && callee.Sig != nil && callee.Sig.TypeParams() != nil {
+			if inst, ok := f.info.Instances[id]; ok && inst.TypeArgs != nil && inst.TypeArgs.Len() == callee.Sig.TypeParams().Len() {
+				g.tb.tsub = map[*types.TypeParam]types.Type{}
+				for i := 0; i < inst.TypeArgs.Len(); i++ {
+					g.tb.tsub[callee.Sig.TypeParams().At(i)] = inst.TypeArgs.At(i)
+				}
+			}
+		}
+	}
 	// a fresh activation: nothing is known about the helper's own variables
 	entry := st
 	{
